@@ -74,6 +74,7 @@ class Ctx:
         self.covers: list[tuple[str, bool]] = []
         self.datatypes: dict[str, ElemType] = {}
         self.axioms: list[Any] = []          # global axioms (string literal distinctness)
+        self.deadline = 0.0
         self._axioms_added = 0
 
     # ---- symbols --------------------------------------------------------------------------
@@ -153,6 +154,8 @@ class Ctx:
             return True
         if z3.is_false(cond):
             return False
+        if self.deadline and time.time() > self.deadline:
+            raise Unsupported("time budget of this contract exhausted (undecided, not a violation)")
         if self.pos < len(self.trace):
             choice, nalt = self.trace[self.pos]
             self.pos += 1
